@@ -19,7 +19,8 @@ ROUND5 = {
     "C13": " Round 5: depths up to 100 with exactness wherever a count fits a machine word (depth 64); variable indices up to 2^62.",
     "C14": " Round 5: parity chains over 60..90 statements (2^(n-1) paths) through both round trips.",
     "C15": " Round 5: files beyond 64 / 128 KiB, nesting 500..900, numbers of 18..30 digits in labels (open finding K7), --export into a fresh file next to any flag combination.",
-    "C16": " Round 5: statements called TOP / BOT / T / F / u; polling beyond the service's own time limit.",
+    "C16": " Round 5: statements called TOP / BOT / T / F / u; polling beyond the service's own time limit; statement names with a NUL character (open finding K8).",
+    "C17": " Round 5: account names of 60..9 000 bytes through registration, login, renaming (open finding K9).",
     "C18": " Round 5: results of conclusions() fed back as interpretations.",
     "C19": " Round 5: backlogs of 200..4 200 pending messages taken by one poll.",
     "C20": " Round 5: every standard way of consuming the iterators after j next() calls; vectors longer than 2^16 entries.",
